@@ -1,0 +1,202 @@
+//go:build verif
+
+package tls
+
+import (
+	"crypto"
+	"crypto/ecdsa"
+	"crypto/ed25519"
+	"crypto/elliptic"
+	"crypto/rand"
+	"fmt"
+	"io"
+	"math/big"
+
+	"github.com/zmap/zcrypto/rsa"
+	"github.com/zmap/zcrypto/x509"
+)
+
+// Verification hooks for property C32 (key-exchange parameter parsers survive arbitrary peer bytes). Add-only;
+// built with -tags verif. Each hook feeds ONE handshake message to the real unmarshal + the real key agreement and
+// reports whether the message was parsed to the end (Class "ok": accepted, or rejected only by the signature /
+// decryption that follows the parse), refused by a parser guard ("err") or made the code panic ("panic"), together
+// with the fields the real code extracted.
+
+type ZVC32KxOut struct {
+	Class string // ok, err, panic
+	Pan   string // the recovered panic value
+
+	// ECDHE ServerKeyExchange
+	Curve   int
+	Pub     []byte // the server's share as the code kept it (NIST curves: re-marshalled from the parsed point)
+	SigType int    // internal signature type (signaturePKCS1v15 …)
+	HashID  int    // TLS HashAlgorithm id
+	Sig     []byte // the signature bytes handed to the verifier
+
+	// DHE ServerKeyExchange
+	P, G, Ys []byte // big.Int.Bytes() of the parsed parameters
+
+	// ClientKeyExchange: the encrypted pre-master secret handed to Decrypt / the client's share / Yc
+	N []byte
+}
+
+func zvC32KxRecover(out *ZVC32KxOut) {
+	if r := recover(); r != nil {
+		*out = ZVC32KxOut{Class: "panic", Pan: fmt.Sprint(r)}
+	}
+}
+
+// zvC32KxKey: a syntactically valid public key of the given kind (no signature made by the harness has to verify:
+// "parsed to the end" is what is observed).
+func zvC32KxKey(kt string) crypto.PublicKey {
+	switch kt {
+	case "ecdsa":
+		p := elliptic.P256().Params()
+		return &x509.AugmentedECDSA{Pub: &ecdsa.PublicKey{Curve: elliptic.P256(), X: p.Gx, Y: p.Gy}}
+	case "ed25519":
+		return ed25519.PublicKey(make([]byte, ed25519.PublicKeySize))
+	}
+	n := new(big.Int).Lsh(big.NewInt(1), 1023)
+	n.Add(n, big.NewInt(0x10001d))
+	return &rsa.PublicKey{N: n, E: big.NewInt(65537)}
+}
+
+func zvC32KxHellos(vers uint16, sigAlgs []uint16) (*clientHelloMsg, *serverHelloMsg) {
+	ch := &clientHelloMsg{random: make([]byte, 32)}
+	for _, s := range sigAlgs {
+		ch.supportedSignatureAlgorithms = append(ch.supportedSignatureAlgorithms, SignatureScheme(s))
+	}
+	return ch, &serverHelloMsg{random: make([]byte, 32), vers: vers}
+}
+
+// ZVC32KxECDHEServerKeyExchange: serverKeyExchangeMsg.unmarshal + (*ecdheKeyAgreement).processServerKeyExchange of an
+// ECDHE_RSA (isRSA) or ECDHE_ECDSA suite at version vers, for a client that offered sigAlgs and a server
+// certificate carrying a key of kind kt (rsa, ecdsa, ed25519).
+func ZVC32KxECDHEServerKeyExchange(vers uint16, isRSA bool, kt string, sigAlgs []uint16, msg []byte) (out ZVC32KxOut) {
+	defer zvC32KxRecover(&out)
+	var ka *ecdheKeyAgreement
+	if isRSA {
+		ka = ecdheRSAKA(vers).(*ecdheKeyAgreement)
+	} else {
+		ka = ecdheECDSAKA(vers).(*ecdheKeyAgreement)
+	}
+	skx := new(serverKeyExchangeMsg)
+	if !skx.unmarshal(msg) {
+		return ZVC32KxOut{Class: "err"}
+	}
+	ch, sh := zvC32KxHellos(vers, sigAlgs)
+	cert := &x509.Certificate{PublicKey: zvC32KxKey(kt)}
+	err := ka.processServerKeyExchange(&Config{}, ch, sh, cert, skx)
+	if err != nil && ka.verifyError == nil {
+		return ZVC32KxOut{Class: "err"}
+	}
+	out.Class = "ok"
+	out.Curve = int(ka.serverParams.CurveID())
+	switch p := ka.serverParams.(type) {
+	case *x25519Parameters:
+		out.Pub = p.publicKey
+	case *nistParameters:
+		if curve, ok := curveForCurveID(p.curveID); ok && p.x != nil {
+			out.Pub = elliptic.Marshal(curve, p.x, p.y)
+		}
+	}
+	if auth, ok := ka.auth.(*signedKeyAgreement); ok {
+		out.SigType, out.HashID, out.Sig = int(auth.sh.Signature), int(auth.sh.Hash), auth.raw
+	}
+	return out
+}
+
+// ZVC32KxDHEServerKeyExchange: serverKeyExchangeMsg.unmarshal + (*dheKeyAgreement).processServerKeyExchange +
+// (*signedKeyAgreement).verifyParameters of a DHE_RSA (or, dss, DHE_DSS) suite at version vers. sigHashes != nil is
+// Config.SignatureAndHashes as (signature, hash) pairs; otherwise the default list (dsaEnabled: ClientDSAEnabled).
+func ZVC32KxDHEServerKeyExchange(vers uint16, dss bool, sigHashes [][2]uint8, dsaEnabled bool, msg []byte) (out ZVC32KxOut) {
+	defer zvC32KxRecover(&out)
+	var ka *dheKeyAgreement
+	if dss {
+		ka = dheDSSKA(vers).(*dheKeyAgreement)
+	} else {
+		ka = dheRSAKA(vers).(*dheKeyAgreement)
+	}
+	skx := new(serverKeyExchangeMsg)
+	if !skx.unmarshal(msg) {
+		return ZVC32KxOut{Class: "err"}
+	}
+	cfg := &Config{ClientDSAEnabled: dsaEnabled}
+	if sigHashes != nil {
+		cfg.SignatureAndHashes = []SigAndHash{}
+		for _, p := range sigHashes {
+			cfg.SignatureAndHashes = append(cfg.SignatureAndHashes, SigAndHash{Signature: p[0], Hash: p[1]})
+		}
+	}
+	ch, sh := zvC32KxHellos(vers, nil)
+	cert := &x509.Certificate{PublicKey: zvC32KxKey("rsa")}
+	err := ka.processServerKeyExchange(cfg, ch, sh, cert, skx)
+	if err == errServerKeyExchange || (err != nil && err.Error() == "tls: unsupported hash function for ServerKeyExchange") {
+		return ZVC32KxOut{Class: "err"}
+	}
+	out.Class = "ok"
+	out.P, out.G, out.Ys = ka.p.Bytes(), ka.g.Bytes(), ka.yTheirs.Bytes()
+	if auth, ok := ka.auth.(*signedKeyAgreement); ok {
+		out.HashID, out.Sig = int(auth.sh.Hash), auth.raw
+	}
+	return out
+}
+
+// zvC32KxDecrypter records the ciphertext the key agreement hands to the private key.
+type zvC32KxDecrypter struct {
+	got []byte
+}
+
+func (d *zvC32KxDecrypter) Public() crypto.PublicKey { return zvC32KxKey("rsa") }
+func (d *zvC32KxDecrypter) Decrypt(_ io.Reader, msg []byte, _ crypto.DecrypterOpts) ([]byte, error) {
+	d.got = append([]byte{}, msg...)
+	return make([]byte, 48), nil
+}
+
+// ZVC32KxClientKeyExchange: clientKeyExchangeMsg.unmarshal + processClientKeyExchange of the server side of an RSA
+// (kind "rsa"), ECDHE (kind "ecdhe": the server's ephemeral key is on curve) or DHE (kind "dhe": prime p) suite.
+func ZVC32KxClientKeyExchange(kind string, vers uint16, curve uint16, p []byte, msg []byte) (out ZVC32KxOut) {
+	defer zvC32KxRecover(&out)
+	ckx := new(clientKeyExchangeMsg)
+	if !ckx.unmarshal(msg) {
+		return ZVC32KxOut{Class: "err"}
+	}
+	switch kind {
+	case "rsa":
+		ka := rsaKA(vers).(*rsaKeyAgreement)
+		d := &zvC32KxDecrypter{}
+		_, err := ka.processClientKeyExchange(&Config{}, &Certificate{PrivateKey: d}, ckx, vers)
+		if err != nil {
+			return ZVC32KxOut{Class: "err"}
+		}
+		return ZVC32KxOut{Class: "ok", N: d.got}
+	case "ecdhe":
+		ka := ecdheRSAKA(vers).(*ecdheKeyAgreement)
+		params, err := generateECDHEParameters(rand.Reader, CurveID(curve))
+		if err != nil {
+			return ZVC32KxOut{Class: "err", Pan: "no such curve"}
+		}
+		ka.params, ka.serverParams = params, params.Clone()
+		if _, err := ka.processClientKeyExchange(&Config{}, &Certificate{}, ckx, vers); err != nil {
+			return ZVC32KxOut{Class: "err"}
+		}
+		out.Class = "ok"
+		switch q := ka.params.(type) {
+		case *x25519Parameters:
+			out.N = q.publicKey
+		case *nistParameters:
+			if c, ok := curveForCurveID(q.curveID); ok && q.x != nil {
+				out.N = elliptic.Marshal(c, q.x, q.y)
+			}
+		}
+		return out
+	case "dhe":
+		ka := dheRSAKA(vers).(*dheKeyAgreement)
+		ka.p, ka.xOurs = new(big.Int).SetBytes(p), big.NewInt(5)
+		if _, err := ka.processClientKeyExchange(&Config{}, &Certificate{}, ckx, vers); err != nil {
+			return ZVC32KxOut{Class: "err"}
+		}
+		return ZVC32KxOut{Class: "ok", N: ka.yClient.Bytes()}
+	}
+	return ZVC32KxOut{Class: "err", Pan: "bad kind"}
+}
